@@ -458,6 +458,8 @@ def _r19_2(run: Run, res: Resolver) -> None:
             continue
         for t in ast.walk(f["walk"]):
             if isinstance(t, ast.If) and any(isinstance(c, ast.Continue) for c in t.body):
+                if isinstance(t.test, ast.UnaryOp) and isinstance(t.test.op, ast.Not) and isinstance(t.test.operand, ast.Call) and isinstance(t.test.operand.func, ast.Attribute) and t.test.operand.func.attr == "is_symlink":
+                    continue  # `if not c.is_symlink(): continue` passes over a component that is no symlink: not an exemption
                 consts = [c.value for c in ast.walk(t.test) if isinstance(c, ast.Constant)]
                 ok = any(isinstance(c, int) and c <= 2 for c in consts) and "/private/" in consts and isinstance(t.test, ast.BoolOp) and isinstance(t.test.op, ast.And)
                 run.instance("R19.2", f"{fi.module.relpath}:{t.lineno}", f"{fi.qualname}: system-symlink exemption is `depth <= 2 and target under /private/`", ok=ok)
